@@ -237,6 +237,12 @@ package parser
 //@ func (PythonGenerator).generateNewInstance
 //@   decreases rank(packet)
 //@ func (CppGenerator).generateCodeForPacket
+//@   ensures [C07:cpp-marked] haskey(self.hasGen, p.Name) && forallkeyold(k, self.hasGen, haskey(self.hasGen, k))
+//@   ensures [C07:cpp-defined-before-use] !old(haskey(self.hasGen, p.Name)) ==> forall(i, 0, len(p.Fields), typeis(p.Fields[i].Attr, *model.ObjectFieldAttribute) ==> haskey(self.hasGen, unbox(p.Fields[i].Attr, *model.ObjectFieldAttribute).RefPacket.Name))
+//@   loop 0 invariant haskey(self.hasGen, p.Name)
+//@   loop 0 invariant forallkeyold(k, self.hasGen, haskey(self.hasGen, k))
+//@   loop 0 invariant forall(i, 0, rangeindex + 1, typeis(p.Fields[i].Attr, *model.ObjectFieldAttribute) ==> haskey(self.hasGen, unbox(p.Fields[i].Attr, *model.ObjectFieldAttribute).RefPacket.Name))
+//@   loop 1 invariant haskey(self.hasGen, p.Name) && forallkeyentry(k, self.hasGen, haskey(self.hasGen, k))
 //@   decreases rank(p)
 //@ func (CppGenerator).generateNewInstance
 //@   decreases 2*rank(p) + 1
